@@ -107,6 +107,8 @@ def main : IO Unit := do
   for e in classMap do
     if !classEnumFieldsOk tables cEnumRows e then
       out.putStrLn s!"ENUMFIELD\ta field of {e.1.str} cannot represent every enumerator of the C enumeration it lies over"
+  for b in badStores pyTab pySetterProps pyOnlyAttrs pyAttrStores do
+    out.putStrLn s!"STORE\t{b.1.str}\t{b.2.str}\t{b2s (memPair b.1 b.2 knownStoreExceptions)}"
   out.putStrLn s!"COUNT\tprotos\t{cProtos.length}\t{floorProtos}"
   out.putStrLn s!"COUNT\tcallbacks\t{pyCallbacks.length}\t{floorCallbacks}"
   out.putStrLn s!"COUNT\trestype_decls\t{pyRestypeDecls.length}\t{floorRestypeDecls}"
